@@ -49,3 +49,39 @@ Proof.
   split; [exact e_senders_ok|]. split; [vm_compute; reflexivity|]. split; [|split; vm_compute; lia].
   intros x H. vm_compute in H. destruct H as [H|[H|[H|[H|[]]]]]; inversion H; reflexivity.
 Qed.
+
+(* ---- C06: previous outcome p1 (no channels) as bytes; three correct nodes whose definitions caches hold {7 := nv_def}
+   vote to add it; a fourth sender sends garbage; the new outcome defines channel 7 ---- *)
+Definition e6_prev_bytes : list Z := match encode_outcome 1 p1 with Ok b => b | _ => [] end.
+Definition e6_inp : obs_inp :=
+  {| oi_now := 10 * s; oi_att := Ok []; oi_retire := Ok false; oi_expected := {[ 7 := nv_def ]}; oi_vals := ∅; oi_fails := false |}.
+Definition e6_ss : list lsender := [LCorrect e6_inp [] [(7, nv_def)] []; LFaulty [255; 255]; LCorrect e6_inp [] [(7, nv_def)] []; LCorrect e6_inp [] [(7, nv_def)] []].
+Definition e6_tagged := tagged (fun _ => None) (fun _ => true) nv_cf 2 e6_prev_bytes e6_ss.
+
+Lemma e6_senders_ok : lsenders_ok (fun _ => true) nv_cf 2 e6_prev_bytes e6_ss.
+Proof.
+  intros i rms ups vals Hin.
+  assert (Hcases : i = e6_inp /\ rms = [] /\ ups = [(7, nv_def)] /\ vals = []).
+  { destruct Hin as [H|[H|[H|[H|[]]]]]; try discriminate; inversion H; subst; auto. }
+  destruct Hcases as (-> & -> & -> & ->). split.
+  - unfold inputs_wf, e6_inp. cbn [oi_now oi_expected oi_vals]. split; [unfold u64_ok; vm_compute; split; [discriminate|reflexivity]|]. split.
+    + apply map_Forall_singleton. split; [unfold u32_ok; lia|]. unfold def_wf, nv_def. cbn [cd_fmt cd_streams]. split; [unfold u32_ok; lia|].
+      constructor; [|constructor]. unfold stream_wf. cbn [fst snd]. unfold u32_ok. lia.
+    + apply map_Forall_empty.
+  - intros ro Ho.
+    assert (Hro : ro = {| ro_att := []; ro_retire := false; ro_ts := 10 * s; ro_removes := []; ro_updates := {[ 7 := nv_def ]}; ro_values := ∅ |}).
+    { vm_compute in Ho; inversion Ho; vm_compute; reflexivity. }
+    subst ro. cbn [ro_removes ro_updates ro_values]. rewrite map_to_list_empty, map_to_list_singleton.
+    split; [constructor|]. split; [apply Permutation_refl|]. split; [constructor|]. unfold small. vm_compute. reflexivity.
+Qed.
+
+Example e6_round :
+  bok e6_prev_bytes /\ lsenders_ok (fun _ => true) nv_cf 2 e6_prev_bytes e6_ss /\
+  (length (List.filter (fun p : option observation * bool => negb (snd p)) e6_tagged) <= c_f nv_cf)%nat /\
+  match outcome_step nv_h nv_cf 2 p1 (map fst e6_tagged) with
+  | Ok next => o_defs next !! 7 = Some nv_def /\ o_defs p1 !! 7 = None
+  | _ => False end.
+Proof.
+  split; [apply Forall_forall; intros b Hb; vm_compute in Hb; repeat (destruct Hb as [<-|Hb]; [lia|]); destruct Hb|].
+  split; [exact e6_senders_ok|]. split; [vm_compute; lia|]. vm_compute. split; reflexivity.
+Qed.
